@@ -32,6 +32,9 @@ EXPLANATION = (
 EXPLANATION += (
     ' ADDED: C10.1 includes the size formulas of the cropper (data blocks, array bytes). C10.2: each origin field receives <axis of the field>[<range of the same axis>[0]]; the interval field is not decoded ungated. C10.3 includes the order / one-key-per-array / full-grid-array clauses of C03.5 and sums companion writes. C10.7 decides the clip semantically: on every path the aligned upper bound is the axis length, or the block ceiling under an ordering fact that bounds it by the axis length (min(), or an equality test of a conditional expression).'
 )
+EXPLANATION += (
+    ' ADDED (session 4): C10.9 - the cropper patches a copy of the source header, which is DISK_BLOCK_BYTES * n_header_blocks long, and the reader accepts files with one header block: a slice store whose range ends after the first block must be dominated by a test on the number of header blocks / the length of the copy (or by a completed fixed-width decode of source bytes at that position); otherwise the bytearray grows, the written header is longer than n_header_blocks * 4096 and the data section of the output is read shifted.'
+)
 ASSUMPTIONS = ['request bounds are integers', 'names denote what they say']
 NOT_DECIDED = 'Bitwise equality of decoded volumes; header values; cropping of irregular or 2D sources.'
 
@@ -64,6 +67,10 @@ def run(ctx):
     footer_crop(ctx)
     validation(ctx)
     symbolic(ctx, ht)
+    ctx.rule('C10.9', 'patches of the copied source header stay inside it: a store beyond the first header block is guarded '
+             'by the number of header blocks (files with one header block are accepted by the reader)')
+    if HR.check_copy_bounds(ctx, ht, 'C10.9', select=lambda f: f.module.name == 'cropping') < 5:
+        raise AnalysisError('cropper: stores into the copied header: fewer than 5 found')
 
 
 def completeness(ctx, ht):
